@@ -1933,6 +1933,20 @@ def flatten(v, prefix=""):
     return out
 
 
+def flatten_paths(v, prefix=()):
+    """[(LV path tuple, scalar term)] for the scalar slots of a compound value."""
+    out = []
+    if isinstance(v, Obj):
+        for k, x in v.f.items():
+            out += flatten_paths(x, prefix + (k,))
+    elif isinstance(v, Arr):
+        for i, x in enumerate(v.items):
+            out += flatten_paths(x, prefix + (i,))
+    else:
+        out.append((prefix, v))
+    return out
+
+
 def show(t, depth=0):
     """Readable rendering of a term."""
     if isinstance(t, tuple) and t:
